@@ -105,7 +105,8 @@ def random_history(rng, other_texts):
         if k == "get_scheme":
             ops.append({"op": k, "name": rng.choice(["explicit_euler", "forward_explicit_euler", "euler", "forward_euler", "generalized_rush_larsen", "forward_generalized_rush_larsen", "hybrid_rush_larsen", "rush_larsen", "forward_rush_larsen"])})
         else:
-            ops.append({"op": k, "text": rng.choice(other_texts), "schemes": rng.choice([[], ["explicit_euler"], ["generalized_rush_larsen"], ["explicit_euler", "generalized_rush_larsen", "hybrid_rush_larsen"]]), "c": rng.random() < 0.3})
+            ops.append({"op": k, "text": rng.choice(other_texts), "schemes": rng.choice([[], ["explicit_euler"], ["generalized_rush_larsen"], ["explicit_euler", "generalized_rush_larsen", "hybrid_rush_larsen"]]), "c": rng.random() < 0.3,
+                        "shape": rng.choice([None, None, "single", "multiple"]), "remove_unused": rng.random() < 0.25, "jax": rng.random() < 0.2})
     return ops
 
 
@@ -134,6 +135,9 @@ def run_case(spec, ctx):
             if v:
                 others.append(v)
                 others.append(v)
+        # ... and the requested text itself, translated earlier with other options (shape, remove_unused, back end)
+        others.append(text)
+        others.append(text)
         base = fresh({"text": text, "requests": reqs}, 0)
         if "fatal" in base:
             out.update(status="skipped", reason="model cannot be generated in a fresh process: " + base["fatal"][-150:])
